@@ -161,6 +161,11 @@ type vfC10World struct {
 	trace []string
 	xid   uint32
 
+	// started is the real time the history began; only used to call a failure
+	// inconclusive when the process was stalled for so long that real time
+	// could have expired a lease (margin: one minute).
+	started time.Time
+
 	// bookkeeping for the non-trivial rule and classes
 	changedSinceStart bool
 	lastMemSig        string
@@ -187,6 +192,7 @@ func vfC10NewWorld(t vfC10T, conf vfC10Conf, extraIPs []string, hosts []string) 
 		acked:      map[string]netip.Addr{},
 		probeHosts: map[string]struct{}{},
 		flags:      map[string]bool{},
+		started:    time.Now(),
 	}
 
 	ones, _ := net.IPMask(netip.MustParseAddr(conf.Mask).AsSlice()).Size()
@@ -303,6 +309,9 @@ func (w *vfC10World) create(live bool) (s *server, v4 *v4Server, handlers map[st
 // fail reports a failure together with the history that led to it.
 func (w *vfC10World) fail(format string, args ...any) {
 	msg := fmt.Sprintf(format, args...)
+	if el := time.Since(w.started); el > 30*time.Second {
+		msg = fmt.Sprintf("VERIF-INCONCLUSIVE: the history took %s of real time, leases may have expired by themselves; ", el) + msg
+	}
 	sb := &strings.Builder{}
 	fmt.Fprintf(sb, "%s\nconfig: gateway %s mask %s pool %s-%s lease %ds\nhistory:\n", msg,
 		w.conf.Gateway, w.conf.Mask, w.conf.Start, w.conf.End, vfC10LeaseSec)
